@@ -131,6 +131,18 @@ func floatLiterals(c *Ctx) (pool []string, cl []string) {
 		"100000000000000016777215", "100000000000000016777216", "1e23", "8.41e21", "5e-20", "6.6e-20", "1.00000000000000011102230246251565404236316680908203125", "1.00000000000000011102230246251565404236316680908203124", "1.00000000000000011102230246251565404236316680908203126"} {
 		add(s, "threshold")
 	}
+	// more digits than the exponent scan's saturation threshold: the decimal point must still end up where the
+	// literal says (exponents beyond the threshold may only be clipped when that cannot change the result)
+	for _, nz := range []int{9990, 10000, 10020, 20000} {
+		zeros := strings.Repeat("0", nz)
+		for _, e := range []int{nz - 1, nz, nz + 1, nz + 300, nz + 400, 99999, 100000, 100001, 10 * nz, 10*nz + 1, 120000, 1000000} {
+			add(fmt.Sprintf("1%se-%d", zeros, e), "huge-exponent")
+			add(fmt.Sprintf("0.%s1e%d", zeros, e), "huge-exponent")
+			add(fmt.Sprintf("-0.%s1e+%d", zeros, e+1), "huge-exponent")
+		}
+		add("17976931348623157"+zeros+fmt.Sprintf("e-%d", nz-292), "huge-exponent")
+		add("0."+zeros+fmt.Sprintf("17976931348623158e%d", nz+309), "huge-exponent")
+	}
 	// generated literals
 	g := c.gen()
 	for i := 0; i < c.scale(6000, 80000); i++ {
